@@ -42,6 +42,11 @@ CLAIMS = {
         "Decides structural necessary conditions only: re-validation after every callback unless the state is already terminal, terminal-before-wake, extraction-is-last, clone-before-cell, revert-before-drop with a fresh read, release discipline, waker balance, cell typestate table. The tree of nested callback programs is not explored.",
         "Trusted: rustc nightly MIR, factgen extraction, the user-code classification, the cell/typestate tables in vf/props/c07.py restating core/state.rs and docs/callback-safety.md.",
         "DESIGN.md section 3, C07"),
+    "C08": (
+        "MIR rules over events + awaiter_set loaded as one program: guard liveness (wake outside the mutex, is_notified read under it, register under it), must-pass-through of the signal re-read between fetch_or(HAS_WAITERS) and register, dominating-switch guards, evaluated orderings/constants, single-writer and path rules on the awaiter list (generation stamp only with the tail link)",
+        "Weakest form: linearizability is NOT decided. Decides structural necessary conditions of 'no lost / duplicated signal': wake outside the lock, set-flag-then-recheck before register, HAS_WAITERS clear discipline, cancel forwards-or-restores decided under the lock, manual-set publish/advance/drain shape, release/acquire on signal publication/consumption, awaiter-list discipline (generation, lifecycle). Only the thread-safe pair is covered.",
+        "Trusted: rustc nightly MIR, factgen extraction, constants IDLE/SIGNALED/HAS_WAITERS as evaluated, user-code/guard classification.",
+        "DESIGN.md section 3, C08"),
     "C12": (
         "guard-liveness x user-code classification over the linked crate (incl. closures run under LocalKey::with_borrow*), call-graph reachability of thread::current() from Drop of Send reference types (Send decided by the trait matrix of a probe crate), guard liveness at the reference-count test, entry()/insert discipline on the registries",
         "Decides structural necessary conditions only: no user code under a registry lock / thread-local registry borrow (first access with nested linked variables terminates), per-thread cleanup of Send references keyed by origin and decided under the lock, confinement witnesses, create-outside/insert-under-lock with occupied re-check, first registration wins. Two defects found by R1 on the pinned tree were genuine, reproduced and repaired by two fix: commits; R2/R3 on RefSync are genuine, reproduced and recorded as known findings (repair is a design change). Exactly-one-family under all racing first accesses is not decided.",
